@@ -114,15 +114,14 @@ def rule_link_writers(ctx):
                     if isinstance(e, dict) and e.get("name") == "link" and e.get("adt") in ("strong::AtomicRc", "weak::AtomicWeak"):
                         n += 1
                         owner = e["adt"]
-                        root = b
-                        while root.kind == "closure":
-                            root = prog.body(root.j["root"])
-                        ok = owner in (root.j.get("impl_self") or "")
-                        r.instance("%s touches %s.link" % (root.name, owner), ok)
-                        r.functions.add(root.name)
-                        if not ok:
-                            r.violate(root.name, "link", "accesses %s.link from outside %s's own methods" % (owner, owner),
-                                      b.loc(bi))
+                        for rn in prog.path_roots(b.name):
+                            root = prog.body(rn)
+                            ok = owner in (root.j.get("impl_self") or "")
+                            r.instance("%s touches %s.link" % (root.name, owner), ok)
+                            r.functions.add(root.name)
+                            if not ok:
+                                r.violate(root.name, "link", "accesses %s.link from outside %s's own methods" % (owner, owner),
+                                          b.loc(bi))
     vis = {}
     for a in prog.items["adts"]:
         if a["path"] in ("strong::AtomicRc", "weak::AtomicWeak"):
@@ -133,7 +132,7 @@ def rule_link_writers(ctx):
                     r.instance("%s.link is not public (%s)" % (a["path"], f["vis"]), not pub)
                     if pub:
                         r.violate(a["path"], "visibility", "the link field is public")
-    r.require(n, 20, "link accesses")
+    r.require(n, 14, "link accesses")
     return r
 
 
